@@ -175,6 +175,11 @@ func WorkerMain(t *testing.T, rigs map[string]Rig) {
 		if *fBudget > 0 && time.Since(t0).Seconds() > *fBudget {
 			break
 		}
+		if *fOut != "" {
+			// which run is in progress: if code under test crashes the process
+			// outside the rig's goroutine, the driver attributes the crash to it
+			os.WriteFile(*fOut+".cur", []byte(strconv.FormatUint(s, 10)), 0644)
+		}
 		r := runOne(t, rig, *fProp, *fTier, NewTape(s), *fLog)
 		if !*fLog && len(r.Viol) > 0 {
 			// keep the tape only for the first occurrences of each failure class
